@@ -711,8 +711,14 @@ class tensor:
             )
         rprod = 1 if rdims.size == 0 else np.prod(np.array(tshape)[rdims])
         cprod = 1 if cdims.size == 0 else np.prod(np.array(tshape)[cdims])
+        # No permutation is needed for the identity order (keeps copy=False meaningful)
+        permuted_data = (
+            self.data
+            if np.array_equal(dims, np.arange(n))
+            else self.permute(dims).data
+        )
         data = np.reshape(
-            self.permute(dims).data,
+            permuted_data,
             (rprod, cprod),
             order=self.order,
         )
@@ -1269,6 +1275,10 @@ class tensor:
 
         # Check for special case of an order-1 object, has no effect
         if (order == 1).all():
+            return self.copy()
+
+        # The identity permutation would otherwise return a view of this tensor's data
+        if np.array_equal(order, np.arange(self.ndims)):
             return self.copy()
 
         # Np transpose does error checking on order, acts as permutation
